@@ -1,4 +1,5 @@
 import SspModel.Lemmas.Eject
+import SspModel.Lemmas.Bridge.Sched
 import SspModel.Lemmas.Bridge.Eject
 /-!
 # C07 — dynamical BH retention removes exactly the requested mass, heaviest first
@@ -32,6 +33,8 @@ theorem lightestMass_real (centre0 : ℝ) (bins : List (ℝ × ℝ)) :
   simp only [Scalar.lt, real_zero, decide_eq_true_eq]
 
 structure Statement : Prop where
+  /-- shape obligations on the extraction loop of both `_evolve` methods (see `Lemmas/Bridge/Sched.lean`) -/
+  source_row_copy : ∀ x : ℝ, Generated.sched_row_owns_copy x = 1 ∧ Generated.schedbh_row_owns_copy x = 1
   /-- one step of the model's loop, and its entry condition and initial budget, are the source's own expressions -/
   source_step : ∀ (m n mej : ℝ) (rest : List (ℝ × ℝ)), dynEjectLoop ((m, n) :: rest) mej =
       if Generated.eject_whole m mej then
@@ -215,6 +218,7 @@ theorem row_err (kicks : Option (List (ℝ × ℝ) → List (ℝ × ℝ) × ℝ)
 
 /-- **C07** over exact reals (for the loop as repaired by the `fix:` commit: `while M_eject > 0`) -/
 theorem C07_holds : Statement where
+  source_row_copy := fun x => ⟨(Bridge.gen_sched_shape x).2.2.2.1, (Bridge.gen_sched_shape x).2.2.2.2.2.2.2.1⟩
   source_step := Bridge.gen_dynEjectLoop_cons
   source_entry := Bridge.gen_dynEjectRev
   source_budget := Bridge.gen_eject_initial
